@@ -36,8 +36,10 @@ pub fn stub_metadata_len(_m: &std::fs::Metadata) -> u64 {
 pub fn stub_create_dir<P: AsRef<std::path::Path>>(_p: P) -> std::io::Result<()> {
     Ok(())
 }
+/// Time::now -> the instant the harness chose (arbitrary unless the harness sets it)
+pub static mut VERIF_NOW: u64 = 0;
 pub fn stub_now() -> pocket_types::Time {
-    pocket_types::Time::from_u64(kani::any())
+    pocket_types::Time::from_u64(unsafe { VERIF_NOW })
 }
 
 /// `unwrap()` without the Debug-formatting path and without drop glue for the error
@@ -71,3 +73,6 @@ macro_rules! some {
 pub fn stub_io_to_string<T: ?Sized>(_e: &T) -> String {
     String::from("Out of space")
 }
+
+/// closing a file descriptor is a no-op on the model file (the real one calls libc::close)
+pub fn stub_fd_drop(_f: &mut std::os::fd::OwnedFd) {}
